@@ -180,7 +180,14 @@ contract(O + "MemoryLogger.write", props=["C16", "C14", "C13"], types={"dictiona
                    "implies(serializer is not None, ref(dictionary) != ref(typed(serializer, '_MessageSerializer').fields))")],
          modifies=["seq(self.messages)", "seq(self.serializers)", "seq(self.tracebackMessages)", "seq(self._failed_validations)", "#CALLS", "#NTOP"],
          loops={0: {"locals": {"frame": "tuple"}, "modifies": [], "inv": []}},
-         ensures=[("message-recorded-with-its-own-serializer", "seq(self.messages) == old(seq(self.messages)) + [dictionary] and "
+         ghosts={"NVAL": "int", "VFAILED": "bool", "VDICT": "Any", "VSER": "Any"}, ghost_defaults={"NVAL": "0", "VFAILED": "False"},
+         after={"MemoryLogger._validate_message#0": [("NVAL", "NVAL + 1"), ("VDICT", "box(dictionary)"), ("VSER", "box(serializer)")]},
+         after_raise={"MemoryLogger._validate_message#0": [("NVAL", "NVAL + 1"), ("VFAILED", "True"), ("VDICT", "box(dictionary)"), ("VSER", "box(serializer)")]},
+         ensures=[("validated-exactly-once-on-a-private-copy-with-the-given-serializer",
+                   "NVAL == 1 and VSER == box(serializer) and VDICT != box(dictionary) and fresh(VDICT)", ["C14", "C16"]),
+                  ("a-failed-validation-is-recorded-for-the-test-to-report-and-only-then",
+                   "len(seq(self._failed_validations)) == old(len(seq(self._failed_validations))) + ite(VFAILED, 1, 0)", ["C14"]),
+                  ("message-recorded-with-its-own-serializer", "seq(self.messages) == old(seq(self.messages)) + [dictionary] and "
                    "seq(self.serializers) == old(seq(self.serializers)) + [serializer]", ["C16"]),
                   ("traceback-list-consistent", "seq(self.tracebackMessages) == ite(serializer is lookup_global('eliot/_traceback.py', 'TRACEBACK_MESSAGE')._serializer, "
                    "old(seq(self.tracebackMessages)) + [dictionary], old(seq(self.tracebackMessages)))", ["C16"]),
